@@ -36,7 +36,7 @@ ASSUMPTIONS = [
 MUST_REACH = {
     "roundtrips": 400, "templates_covered": 481, "zerocoded": 20, "with_acks": 20, "with_extra": 20,
     "fill_cases": 50, "fill_mixed_marks_in_one_list": 10, "failed_serializations_before_good_ones": 30, "serialized_twice": 100, "fill_unset_fixed": 1, "fill_unset_variable": 1, "omitted_trailing": 5, "count_255": 1, "count_0": 5,
-    "ref_bytes_equal": 400, "roundtrips_custom_template": 300, "template_file_loads": 10, "calls_from_concurrent_threads": 500, "header_edits_on_received": 100, "header_edits_on_zerocoded": 10, "header_edits_after_body_parse": 10,
+    "ref_bytes_equal": 400, "roundtrips_custom_template": 300, "template_file_loads": 10, "decoded_coordinates_edited_in_place": 100, "calls_from_concurrent_threads": 500, "header_edits_on_received": 100, "header_edits_on_zerocoded": 10, "header_edits_after_body_parse": 10,
 }
 
 _ser = UDPMessageSerializer()
@@ -205,6 +205,31 @@ def check_spec(ctx, spec):
         ctx.violation("roundtrip-differs:" + ",".join(fields), "decoded message differs from the encoded one",
                       {"spec": spec, "problems": problems})
         return
+    # a decoded message is the caller's to edit (addons do edit coordinates in place): that must not change what the same
+    # datagram decodes to next time
+    if not spec.get("fill") and ctx.counters.get("roundtrips", 0) % 4 == 0:
+        from hippolyzer.lib.base.datatypes import TupleCoord
+        edited = 0
+        for blist in back.blocks.values():
+            for b in blist:
+                for v in b.vars.values():
+                    if isinstance(v, TupleCoord):
+                        try:
+                            v.X = (v.X if v.X == v.X else 0.0) + 10.5
+                            edited += 1
+                        except Exception:
+                            pass
+        if edited:
+            ctx.count("decoded_coordinates_edited_in_place")
+            try:
+                again = _deser.deserialize(data)
+                if again.to_dict() != msg.to_dict():
+                    ctx.violation("decode-depends-on-earlier-result", "decoding the same datagram again, after a caller had edited the "
+                                  "first result in place, gives another message", {"spec": spec, "problems": _first_body_diff(msg, again)})
+                    return
+            except Exception as e:
+                ctx.violation("deserialize-raises", "decoding the encoder's own datagram raised", {"spec": spec, "exc": repr(e)})
+                return
     # what was reached
     for (bname, entries) in spec["blocks"]:
         if entries:
